@@ -134,6 +134,10 @@ def run(ctx, rep):
                   sample={"guards": repr(descr)})
     import common_g
     rep.floor("IN", "grammar actions feeding this rule", common_g.emit_inputs(ctx, rep, "C10"), 5)
+    import loopstate
+    loopstate.rule(ctx, rep, "C10", ['validation::set_up_oneway_interface', 'validation::check_methods'])
+    import pipeline
+    pipeline.rule(ctx, rep, "C10", ['resolve_types', 'set_up_oneway_interface', 'check_methods'])
     rep.assumptions += ["TB-1 rustc MIR", "TB-4 tabulator", "iterator chain modelled for one generic element: iter_mut/filter_map/for_each visit every element once in order (std)"]
     import common_g
     n, _ = common_g.emit(ctx, rep, "C10", {"oneway"}, "T4")
